@@ -205,8 +205,13 @@ func (d *Driver) govTx() M {
 		p = M{"feeNum": vf[0], "feeDen": vf[1]}
 	}
 	pid, _ := w.App.GovKeeper.GetProposalID(w.Ctx())
+	inner := []interface{}{M{"t": "UpdParams", "mod": mod, "authority": "gov", "p": p}}
+	if d.chance(0.25) {
+		// a second message that fails when the proposal executes: the whole proposal is rolled back
+		inner = append(inner, M{"t": "Send", "from": "gov", "to": "A1", "amt": int64(5), "denom": "nund"})
+	}
 	return M{"a": "DeliverTx", "msgs": []interface{}{
-		M{"t": "GovProp", "proposer": "V", "msgs": []interface{}{M{"t": "UpdParams", "mod": mod, "authority": "gov", "p": p}}},
+		M{"t": "GovProp", "proposer": "V", "msgs": inner},
 		M{"t": "Vote", "voter": "V", "id": int64(pid)}}}
 }
 
@@ -485,6 +490,8 @@ func SignerField(m M) string {
 		return "receiver"
 	case "Send":
 		return "from"
+	case "Grant", "Revoke":
+		return "granter"
 	}
 	return "signer"
 }
